@@ -226,6 +226,94 @@ fn nested_programs() -> Vec<(&'static str, Program, Vec<Vec<Val>>)> {
     out
 }
 
+/// assignments through an index FOLLOWED by further accessors (`b[i].0 = v`, `b[i].g ^= v`,
+/// `b[i][j] = v`, `b[i].1[j] += v`): the addressed element is selected first, then rebuilt
+fn place_programs(n: usize) -> Vec<(&'static str, Program, Vec<Vec<Val>>)> {
+    let u8t = Ty::u8();
+    let mut out = vec![];
+    let idx_pairs = |inner: usize| -> Vec<(u64, u64)> {
+        let mut is: Vec<u64> = (0..=(n as u64 + 1)).collect();
+        is.extend([2 * n as u64, 255, 256, u32::MAX as u64]);
+        let mut js: Vec<u64> = vec![0, 1, inner.saturating_sub(1) as u64, inner as u64, n.saturating_sub(1) as u64, n as u64];
+        js.sort();
+        js.dedup();
+        let mut v = vec![];
+        for i in &is {
+            for j in &js {
+                v.push((*i, *j));
+            }
+            v.push((*i, *i));
+        }
+        v
+    };
+    let uz = |v: u64| Val::Int(v as i128, IntTy::Usize);
+    let e8 = |k: usize, salt: usize| Val::Int(((k * 37 + 11 + salt * 101) % 251) as i128, IntTy::U8);
+    // tuple elements
+    {
+        let et = Ty::Tup(vec![u8t.clone(), u8t.clone()]);
+        let at = Ty::arr(et, n);
+        let body = vec![
+            let_mut("b", var("a")),
+            assign("b", vec![Acc::Index(var("i")), Acc::Tup(0)], var("v")),
+            op_assign("b", vec![Acc::Index(var("j")), Acc::Tup(1)], BinOp::BitXor, var("v")),
+            expr_stmt(var("b")),
+        ];
+        let p = Program::simple_main(vec![("a", at.clone()), ("i", Ty::usize()), ("j", Ty::usize()), ("v", u8t.clone())], at, body);
+        let a = Val::Arr((0..n).map(|k| Val::Tup(vec![e8(k, 0), e8(k, 1)])).collect());
+        let ins = idx_pairs(n).into_iter().map(|(i, j)| vec![a.clone(), uz(i), uz(j), Val::u8(200)]).collect();
+        out.push(("tuple-element", p, ins));
+    }
+    // struct elements
+    {
+        let mut defs = Defs::default();
+        defs.add_struct("S", vec![("g", u8t.clone()), ("f", u8t.clone())]);
+        let at = Ty::arr(Ty::Struct("S".into()), n);
+        let body = vec![
+            let_mut("b", var("a")),
+            op_assign("b", vec![Acc::Index(var("i")), Acc::Field("g".into())], BinOp::Add, var("v")),
+            assign("b", vec![Acc::Index(var("j")), Acc::Field("f".into())], var("v")),
+            expr_stmt(var("b")),
+        ];
+        let mut p = Program::simple_main(vec![("a", at.clone()), ("i", Ty::usize()), ("j", Ty::usize()), ("v", u8t.clone())], at, body);
+        p.defs = defs;
+        let a = Val::Arr((0..n).map(|k| Val::Struct("S".into(), vec![("f".into(), e8(k, 2)), ("g".into(), e8(k, 3))])).collect());
+        let ins = idx_pairs(n).into_iter().map(|(i, j)| vec![a.clone(), uz(i), uz(j), Val::u8(3)]).collect();
+        out.push(("struct-element", p, ins));
+    }
+    // array elements: two index accessors
+    {
+        let inner = 3usize;
+        let at = Ty::arr(Ty::arr(u8t.clone(), inner), n);
+        let body = vec![
+            let_mut("b", var("a")),
+            assign("b", vec![Acc::Index(var("i")), Acc::Index(var("j"))], var("v")),
+            op_assign("b", vec![Acc::Index(var("j")), Acc::Index(lit_usize(1))], BinOp::BitXor, var("v")),
+            expr_stmt(var("b")),
+        ];
+        let p = Program::simple_main(vec![("a", at.clone()), ("i", Ty::usize()), ("j", Ty::usize()), ("v", u8t.clone())], at, body);
+        let a = Val::Arr((0..n).map(|k| Val::Arr((0..inner).map(|q| e8(k, q + 4)).collect())).collect());
+        let ins = idx_pairs(inner).into_iter().map(|(i, j)| vec![a.clone(), uz(i), uz(j), Val::u8(129)]).collect();
+        out.push(("array-element", p, ins));
+    }
+    // an array inside a tuple inside the array; constant outer index at the last element
+    {
+        let inner = 2usize;
+        let et = Ty::Tup(vec![Ty::Bool, Ty::arr(u8t.clone(), inner)]);
+        let at = Ty::arr(et, n);
+        let body = vec![
+            let_mut("b", var("a")),
+            op_assign("b", vec![Acc::Index(var("i")), Acc::Tup(1), Acc::Index(var("j"))], BinOp::BitOr, var("v")),
+            assign("b", vec![Acc::Index(lit_usize(n as u64 - 1)), Acc::Tup(0)], bin(BinOp::Eq, var("v"), lit_u8(7))),
+            expr_stmt(var("b")),
+        ];
+        let p = Program::simple_main(vec![("a", at.clone()), ("i", Ty::usize()), ("j", Ty::usize()), ("v", u8t.clone())], at, body);
+        let a = Val::Arr((0..n).map(|k| Val::Tup(vec![Val::Bool(k % 2 == 0), Val::Arr((0..inner).map(|q| e8(k, q + 8)).collect())])).collect());
+        let ins = idx_pairs(inner).into_iter().map(|(i, j)| vec![a.clone(), uz(i), uz(j), Val::u8(7)]).collect();
+        out.push(("array-in-tuple-element", p, ins));
+    }
+    out
+}
+
 pub fn family_a_jobs(tier: Tier) -> (Vec<Job>, serde_json::Value) {
     let lens: Vec<usize> = match tier {
         Tier::Quick => vec![1, 2, 3, 5, 7, 8, 9, 16, 17, 33],
@@ -240,9 +328,18 @@ pub fn family_a_jobs(tier: Tier) -> (Vec<Job>, serde_json::Value) {
             jobs.push(Job { family: "A", site: format!("A/index/{}x{}", elem.name(), n), prog: index_program(*n, elem), inputs: Arc::new(index_inputs(*n, elem)) });
         }
     }
+    let place_lens: Vec<usize> = match tier {
+        Tier::Quick => vec![1, 2, 3, 4, 5, 6, 7, 9],
+        Tier::Thorough => vec![1, 2, 3, 4, 5, 6, 7, 8, 9, 10, 11, 12, 13, 15, 16, 17, 31, 33],
+    };
+    for n in &place_lens {
+        for (name, prog, inputs) in place_programs(*n) {
+            jobs.push(Job { family: "A", site: format!("A/place/{name}/x{n}"), prog, inputs: Arc::new(inputs) });
+        }
+    }
     for (name, prog, inputs) in nested_programs() {
         jobs.push(Job { family: "A", site: format!("A/nested/{name}"), prog, inputs: Arc::new(inputs) });
     }
     let nj = jobs.len();
-    (jobs, json!({"array_lengths": lens, "programs": nj}))
+    (jobs, json!({"array_lengths": lens, "place_assignment_array_lengths": place_lens, "programs": nj}))
 }
